@@ -632,10 +632,66 @@ def _flat(text: str) -> str:
     return "\n".join(line.strip() for line in text.splitlines())
 
 
+_NF_CACHE: dict = {}
+
+
+def _nf_text(node: ast.AST):
+    """unparsed normal form (sa.derename N0-N14) of a function, cached per node"""
+    k = id(node)
+    if k not in _NF_CACHE:
+        from sa.derename import normal_form
+
+        try:
+            _NF_CACHE[k] = (node, ast.unparse(normal_form(node)[0]))
+        except Exception:  # noqa: BLE001 - the fallback is optional
+            _NF_CACHE[k] = (node, None)
+    return _NF_CACHE[k][1]
+
+
+def _nf_fragment(frag: str):
+    """the same normal form for a statement group written as it appears in the baseline source (first line without
+    indentation, the following lines with the indentation they have inside the function)"""
+    if frag in _NF_CACHE:
+        return _NF_CACHE[frag]
+    out = None
+    try:
+        from sa.derename import normal_form
+
+        lines = frag.strip("\n").split("\n")
+        first, rest = lines[0].strip(), lines[1:]
+        inds = [len(ln) - len(ln.lstrip(" ")) for ln in rest if ln.strip()]
+        base = 0
+        if inds:
+            base = inds[0] - 4 if first.endswith(":") else inds[0]
+            base = min([base] + inds) if base > min(inds) else base
+        body = [first] + [ln[base:] if len(ln) - len(ln.lstrip(" ")) >= base else ln.lstrip(" ") for ln in rest]
+        src = "def _f():\n" + "\n".join("    " + ln for ln in body) + "\n"
+        fn = ast.parse(src).body[0]
+        nf = normal_form(fn)[0]
+        text = str(ast.unparse(nf))
+        blines = text.split("\n")[1:]
+        out = "\n".join(ln[4:] if ln.startswith("    ") else ln for ln in blines)
+    except Exception:  # noqa: BLE001
+        out = None
+    _NF_CACHE[frag] = out
+    return out
+
+
+def _present(frag: str, t, node: ast.AST) -> bool:
+    """a statement group is present as written, or - if the function was rewritten by behaviour-preserving surface
+    edits the unit-level restoration could not undo (because something else in the unit changed too) - present in
+    normal form"""
+    if frag in t:
+        return True
+    nt = _nf_text(node)
+    nfrag = _nf_fragment(frag) if nt is not None else None
+    return bool(nfrag) and nfrag in nt
+
+
 def _need(ctx: Ctx, oid: str, rule: str, f: Func, what: str, frags: list[str], detail: str = ""):
     """obligation stated as a set of statement groups that must all be present in the (surface-normalised) function"""
     t = ast.unparse(f.node)  # BlockText: statement groups are matched at any nesting depth, block structure kept
-    missing = [fr.strip().split("\n")[0] for fr in frags if fr not in t]
+    missing = [fr.strip().split("\n")[0] for fr in frags if not _present(fr, t, f.node)]
     ctx.ob(oid, rule, f, what, not missing, (f"not found: `{missing[0]}`" + (f" (+{len(missing) - 1})" if len(missing) > 1 else "") + (". " + detail if detail else "")) if missing else "", node=f.node)
 
 
